@@ -242,16 +242,15 @@ def eval_case(case, active_quirks=()):
     e2e_req = e2e.request(qf, chlog)
     if e2e_req is not None:
         def e2e_check(rep, _oj=oj, _nq=fc.num_qubits, _ret=ret):
-            if _ret is None:  # Simon: the class has one return bit
-                try:
-                    _ret = fc[e2e_req["ret"][0]] if len(e2e_req["ret"]) == 1 else None
-                except Exception:  # noqa
-                    _ret = None
-            status, detail = e2e.verdict(rep, _oj, _nq, _ret)
+            try:
+                rq = [_ret] if _ret is not None else [fc[r] for r in e2e_req["ret"]]
+            except Exception:  # noqa
+                rq = []
+            status, detail = e2e.verdict(rep, _oj, _nq, rq, kind="fun" if algo == "simon" else "xor")
             out["e2e"] = status
             if status == "mismatch":
-                return dict(what="black box definition list is in the class inXorFragment but the compiler model run on the "
-                            "logged ancilla choices does not reproduce the black box circuit of this instance", **detail)
+                return dict(what="black box definition list is in the class of an end-to-end theorem but the compiler model run "
+                            "on the logged ancilla choices does not reproduce the black box circuit of this instance", **detail)
             return None
         out["reqs"].append((e2e_req, e2e_check))
     # ---- correspondence requests
@@ -503,14 +502,17 @@ def run(ctx: Ctx) -> Result:
     tally = e2e.Tally()
     for case, out in evaluated:
         tally.add(out.get("e2e", "no-form") if replies is not None else "no-form", case["algo"])
-    res.extra["end_to_end"] = dict(covered=tally.covered, instances=tally.total, by_algo=tally.by)
+    res.extra["end_to_end"] = dict(covered=tally.covered, covered_fragment_only=tally.covered_fragment,
+                                   instances=tally.total, by_algo=tally.by)
     res.notes.append(
-        f"{tally.covered} of {tally.total} evaluated instances are covered end to end by the Lean theorem "
-        "C16_end_to_end_fragment: the black box's definition list lies in the decidable class inXorFragment (one return bit) "
-        "AND the compiler model, run on the ancilla choices logged from the real compilation, emits exactly the black box "
-        f"circuit inside this algorithm circuit (a difference would be a disagreement); per algorithm covered/evaluated: "
-        f"{tally.by_text()}; the other instances (several return bits - every Simon instance on 2..4 bits -, several "
-        "definitions, repeated sub-expressions, constants) rest on the per-instance clean-xor-oracle check of the real "
+        f"{tally.covered} of {tally.total} evaluated instances are covered end to end by a Lean theorem "
+        f"({tally.covered_fragment} by C16_end_to_end_fragment - one tree-like definition, one return bit -, the others by "
+        "C16_end_to_end_general - class inGeneralClean, one return bit, return qubit not an argument qubit and never a "
+        "control - and, for Simon, C16_end_to_end_simon_general - inGeneralClean, any number of return bits, every return "
+        "name on a non-argument qubit; side conditions evaluated on the model's output): the black box's definition list "
+        "lies in the class AND the compiler model, run on the ancilla choices logged from the real compilation, emits "
+        "exactly the black box circuit inside this algorithm circuit (a difference would be a disagreement); per algorithm "
+        f"fragment->any/evaluated: {tally.by_text()}; the remaining instances rest on the per-instance check of the real "
         "circuit, as before")
     res.extra["skipped_blackboxes"] = skips
     res.exhaustive = True
